@@ -126,8 +126,8 @@ Result update_score(const std::vector<Result>& results, uint32_t idx)
         if (results[index] == betterResult) return betterResult;
         isUnknown |= (results[index] == kUNKNOWN);
 
-        // double push if pawn is on RANK_2
-        if (rank(wPawn) == RANK_2)
+        // double push if pawn is on RANK_2 and the square in front of it is empty
+        if (rank(wPawn) == RANK_2 && wKing != nextPawnSq && bKing != nextPawnSq)
         {
             nextPawnSq = make_square(RANK_4, file(wPawn));
             uint32_t index = getIndex(BLACK, wKing, nextPawnSq, bKing);
